@@ -10,6 +10,16 @@ INT_RANGES = {
 PURE_LEN = ("[T]::len", "Vec<T, A>::len", "str::len", "String::len", "Bytes::len", "[T; N]::len")
 
 
+PURE = ("usize::saturating_sub", "Ord::min", "Ord::max", "<Vec<T, A> as Deref>::deref", "<String as Deref>::deref",
+        "Vec<T, A>::is_empty", "[T]::is_empty", "HashSet<T, S, A>::contains", "HashMap<K, V, S, A>::get",
+        "BTreeMap<K, V, A>::contains_key", "Option<T>::unwrap_or", "Result<T, E>::is_ok", "Result<T, E>::is_err",
+        "Option<T>::is_some", "Option<T>::is_none", "<EMPTY_ADT_METADATA as Deref>::deref")
+
+
+def _pure(key):
+    return key in PURE or key.endswith(("::len", "::as_bytes", "::as_str", "::as_slice", "::clone"))
+
+
 def norm(e):
     """Normalise for structural comparison: refs/derefs dropped, len() calls unified, call-site ids dropped."""
     if not isinstance(e, tuple):
@@ -17,6 +27,8 @@ def norm(e):
     k = e[0]
     if k in ("ref", "deref"):
         return norm(e[1])
+    if k == "call" and len(e) > 4 and isinstance(e[4], int) and e[1] not in PURE_LEN and not _pure(e[1]):
+        return ("call", e[1], tuple(norm(a) for a in e[3]), e[4])
     if k == "call":
         if e[1] in PURE_LEN and len(e[3]) == 1:
             return ("len", norm(e[3][0]))
